@@ -93,29 +93,50 @@ struct p2_world {
 	ext2_filsys fs;
 	struct ext2_super_block *sb;
 	unsigned char *buf;
-	unsigned off;
+	unsigned off;			/* offset of the entry (= buf[0]) inside the directory block */
+	unsigned len;			/* bytes of the scan buffer visible in this view */
 	struct ext2_dir_entry *dirent;
 	struct problem_context pctx;
 	unsigned char b0;		/* initial value of byte IN.k of the scan buffer */
 };
 
-/* what check_dir_block has established about the entry at `o` of block `b` (see the top of this file) */
-static int p2_callsite_ok(const unsigned char *b, unsigned o)
+/* what check_dir_block has established about the entry whose bytes start at b[0] and which sits at byte offset
+ * `blk_off` of the directory block (see the top of p2_pre.h) */
+static int p2_callsite_ok(const unsigned char *b, unsigned blk_off)
 {
 	unsigned rec;
 
-	if (o > P2_BS - 12u)
+	if (blk_off > P2_BS - 12u)
 		return 0;
-	rec = P2F_REC(b, o);		/* block size < 64 KiB: the decoded rec_len is the stored value */
-	return o + rec <= P2_BS && rec >= 12u && (rec & 3u) == 0 && P2F_NEED(P2F_NL(b, o)) <= rec;
+	rec = P2F_REC(b, 0);		/* block size < 64 KiB: the decoded rec_len is the stored value */
+	return blk_off + rec <= P2_BS && rec >= 12u && (rec & 3u) == 0 && P2F_NEED(P2F_NL(b, 0)) <= rec;
 }
 
-static void p2_setup(struct p2_world *w, int mode, unsigned off)
+/*
+ * Two views of the 2 * 1024-byte directory scan buffer:
+ *   P2_VIEW_BLOCK0  the whole buffer; the entry is the first one of the block (offset 0).  Used for check_dot.
+ *   P2_VIEW_TAIL    the entry sits at an ARBITRARY offset IN.off of the block.  The buffer is presented to the checker
+ *                   as its tail that starts at the entry: an object of P2_TAIL = 2048 - 1012 = 1036 bytes, the part of
+ *                   the tail that exists for every offset 0 .. 1012.  Bytes in front of the entry (and, for small
+ *                   offsets, bytes beyond the 1036th) are not part of the object, so any read or write of them would
+ *                   be an out-of-bounds access and fails the pointer checks: a successful proof shows they are
+ *                   neither read nor written, and the ghost-index statements cover all bytes that can be.  The
+ *                   offset itself stays symbolic where it matters: in the call-site fact offset + rec_len <= 1024.
+ *                   (With the entry addressed at a symbolic index of a 2 KiB array every unit needs 60-110 s of
+ *                   SAT time; the tail view is exact for these functions and needs seconds.)
+ * In both views the entry is at w->buf[0] and the first 1024 bytes come from IN.blk; the remainder is arbitrary.
+ */
+#define P2_VIEW_BLOCK0 0
+#define P2_VIEW_TAIL 1
+#define P2_TAIL (P2_ALLOC - (P2_BS - 12u))
+
+static void p2_setup(struct p2_world *w, int mode, int view)
 {
 	w->ctx = malloc(sizeof(*w->ctx));
 	w->fs = malloc(sizeof(*w->fs));
 	w->sb = malloc(sizeof(*w->sb));
-	w->buf = malloc(P2_ALLOC);	/* second half: arbitrary contents */
+	w->len = view == P2_VIEW_BLOCK0 ? P2_ALLOC : P2_TAIL;
+	w->buf = malloc(w->len);	/* contents beyond IN.blk: arbitrary */
 	ASSUME(w->ctx && w->fs && w->sb && w->buf);
 	memcpy(w->buf, IN.blk, P2_BS);
 	w->fs->super = w->sb;
@@ -126,16 +147,21 @@ static void p2_setup(struct p2_world *w, int mode, unsigned off)
 	w->ctx->inode_dir_map = (ext2fs_inode_bitmap) &p2_tag_dir;
 	w->ctx->inode_reg_map = (ext2fs_inode_bitmap) &p2_tag_reg;
 	w->ctx->inode_bad_map = IN.have_bad_map ? (ext2fs_inode_bitmap) &p2_tag_bad : 0;
-	w->off = off;
-	w->dirent = (struct ext2_dir_entry *) (w->buf + off);
+	if (view == P2_VIEW_BLOCK0)
+		w->off = 0;
+	else {
+		ASSUME(IN.off <= P2_BS - 12u);
+		w->off = IN.off;
+	}
+	w->dirent = (struct ext2_dir_entry *) w->buf;
 	memset(&w->pctx, 0, sizeof(w->pctx));
 	w->pctx.ino = IN.ino;
 	w->pctx.dirent = w->dirent;
-	w->pctx.num = off;
+	w->pctx.num = w->off;
 	p2_mode = mode;
 	p2_nlog = p2_nserious = p2_nchoice = 0;
 	p2_dotdot_calls = 0;
-	ASSUME(IN.k < P2_ALLOC);
+	ASSUME(IN.k < w->len);
 	w->b0 = w->buf[IN.k];
 }
 
